@@ -40,6 +40,10 @@ SIMPLE = [
     ("call", "print(x if False else 1)"),
     ("revolt", "from revolt.errors import SubstitutionError"),
     ("unicode", 'u = "\u00e9\u4e2d"'),
+    # characters that str.splitlines() treats as line boundaries but Python's tokenizer does not
+    ("formfeed", "x2 = 1\x0c"),
+    ("ls_in_string", 's = "a\u2028b"'),
+    ("nel_fs_in_string", 's2 = "\x85\x1c"'),
 ]
 COMPOUND = [
     ("def", "def f():\n    return 1"),
